@@ -22,7 +22,9 @@ func mix(z uint64) uint64 {
 func HashStr(s string) uint64 {
 	h := fnv.New64a()
 	h.Write([]byte(s))
-	return h.Sum64()
+	// finalised: the low bits of a bare FNV-1a value of s+suffix are a function of the low bits of the value of s, so
+	// choices derived as HashStr(id+"/a")%4 and HashStr(id+"/b")%4 would be correlated
+	return mix(h.Sum64())
 }
 
 // NewRand derives the PRNG of case idx of a property from the run seed.
